@@ -76,6 +76,9 @@ IMPORTS = {
 _natives = {}
 
 
+SIG_CYCLIC = "C16/cyclic-import/late-export-through-early-module-instance/index-out-of-bounds"
+
+
 def natives():
     """[(file key, kind fun|method, name, arity kind, lo, hi, [param kinds])] scraped from the repository."""
     root = repo_path()
@@ -160,13 +163,13 @@ def judge(r, src, what, tag):
     return None, o
 
 
-def run_source(src, ctx, tag, what):
+def run_source(src, ctx, tag, what, files=None):
     fail = None
     past_sig = False
     runs = 0
     for v in ("dbg", "rel"):
         try:
-            r = ctx.worker(v).run(src, budget=3_000_000, watchdog_s=40)
+            r = ctx.worker(v).run(src, budget=3_000_000, watchdog_s=40, **({"files": files} if files else {}))
         except W.Inconclusive:
             # the worker ran into its address space cap: neither a crash nor a clean outcome
             return Outcome(discarded="memory-cap", runs=runs + 1)
@@ -193,6 +196,15 @@ def strategy(hazards):
 
 
 def run_case(case, ctx):
+    if case[0] == "srcfiles":
+        o = run_source(case[2], ctx, case[1], case[1], files=dict(case[3]))
+        o.sample = short(case[2], 300)
+        if o.failure is not None:
+            o.failure.info["case"] = enc(case)
+            if "cyclic-import" in case[1] and "index out of bounds" in o.failure.detail:
+                # one known root cause whatever the access and the panic site (see KNOWN_FINDINGS.txt)
+                o.failure.sig = SIG_CYCLIC
+        return o
     if case[0] == "src":
         o = run_source(case[2], ctx, case[1], case[1])
         o.sample = short(case[2], 300)
@@ -406,6 +418,42 @@ def blocked_in_callback_sources():
     return out
 
 
+def cyclic_import_sources():
+    """Modules that import each other: the module that is still running is handed out with the exports it has made so
+    far (as an instance of its module class, or symbol by symbol), and goes on exporting afterwards. Whatever such a
+    program means, it ends with a result or an error, not in the vm's own panic.
+    -> [(name, main source, {path: source})]"""
+    out = []
+    accesses = {"read-early": "a.a1", "read-late": "a.a2", "call-late": "a.late()", "call-early": "a.early()",
+                "write-late": "a.a2 = 5", "str": "a.str()", "probe-late": "a.probe(a)"}
+    for an, acc in sorted(accesses.items()):
+        for when in ("in-body", "in-fn"):
+            for third in (False, True):
+                a = ("export let a1 = 1;\nexport fn early() { return 'early'; }\nexport fn probe(m) { return m.a2; }\n"
+                     "import self.b;\nexport let a2 = 2;\nexport fn late() { return 'late'; }\nexport fn str() { return 'exported str'; }\n")
+                use = "try { print(%s); } catch e { print(e.cls().name()); }" % acc
+                if when == "in-body":
+                    b = "import self.a;\n%s\nexport fn peek() { return 0; }\n" % use
+                else:
+                    b = "import self.a;\nexport fn peek() { %s return 0; }\n" % use
+                files = {"/v/a.lay": a, "/v/b.lay": b}
+                if third:
+                    # a longer cycle: a -> b -> c -> a
+                    files["/v/b.lay"] = "import self.c;\nexport fn peek() { return c.peek(); }\n"
+                    files["/v/c.lay"] = b.replace("import self.a;", "import self.a;", 1)
+                main = ("import self.a;\nimport self.b;\ntry { print(a.a1); print(a.a2); print(b.peek()); print(a.probe(a)); } "
+                        "catch e { print(e.cls().name()); }\nprint('end');\n")
+                out.append(("cyclic-import-%s-%s%s" % (an, when, "-3" if third else ""), main, files))
+    # selected symbols from a module that has not exported them yet, and a module importing itself
+    out.append(("cyclic-import-symbol-late", "import self.a;\nprint('end');\n",
+                {"/v/a.lay": "export let a1 = 1;\nimport self.b;\nexport let a2 = 2;\n", "/v/b.lay": "import self.a:{a2};\nprint(a2);\n"}))
+    out.append(("cyclic-import-symbol-early", "import self.a;\nprint('end');\n",
+                {"/v/a.lay": "export let a1 = 1;\nimport self.b;\nexport let a2 = 2;\n", "/v/b.lay": "import self.a:{a1};\nprint(a1);\n"}))
+    out.append(("cyclic-import-self", "import self.a;\nprint(a.a1);\nprint('end');\n",
+                {"/v/a.lay": "export let a1 = 1;\nimport self.a;\ntry { print(a.a1); print(a.a2); } catch e { print(e.cls().name()); }\nexport let a2 = 2;\n"}))
+    return out
+
+
 def recursion_sources():
     out = []
     for name, (decl, start) in sorted(RECURSIONS.items()):
@@ -432,6 +480,12 @@ def extra(tier, ctx):
         o.sample = "shape " + name
         if o.failure is not None:
             o.failure.info["case"] = enc(("src", "shape:" + name, src))
+        out.append(o)
+    for name, src, files in cyclic_import_sources():
+        o = run_case(("srcfiles", "shape:" + name, src, sorted(files.items())), ctx)
+        o.nontrivial = True
+        o.labels = ["shape", "cyclic-import"]
+        o.sample = "shape " + name
         out.append(o)
     # pairwise matrix: every native x every kind in every position
     nat = natives()
